@@ -1134,10 +1134,13 @@ def hp2dms(hp):
     :return: Degrees, Minutes, Seconds Object
     :rtype: DMSAngle
     """
-    degmin, second = divmod(abs(hp) * 1000, 10)
-    degree, minute = divmod(degmin, 100)
-    return (DMSAngle(degree, minute, second * 10, positive=True) if hp >= 0
-            else DMSAngle(degree, minute, second * 10, positive=False))
+    # parse string to avoid precision problems with floating point ops and base 10 numbers
+    hp_deg_str, hp_mmss_str = _hp_decimals(float(hp))
+    degree = int(hp_deg_str)
+    minute = int(hp_mmss_str[:2])
+    second = float(hp_mmss_str[2:4] + '.' + hp_mmss_str[4:])
+    return (DMSAngle(degree, minute, second, positive=True) if hp >= 0
+            else DMSAngle(degree, minute, second, positive=False))
 
 
 def hp2ddm(hp):
@@ -1148,9 +1151,11 @@ def hp2ddm(hp):
     :return: Degrees, Decimal Minutes Object
     :rtype: DDMAngle
     """
-    degmin, second = divmod(abs(hp) * 1000, 10)
-    degree, minute = divmod(degmin, 100)
-    minute = minute + (second / 6)
+    # parse string to avoid precision problems with floating point ops and base 10 numbers
+    hp_deg_str, hp_mmss_str = _hp_decimals(float(hp))
+    degree = int(hp_deg_str)
+    second = float(hp_mmss_str[2:4] + '.' + hp_mmss_str[4:])
+    minute = int(hp_mmss_str[:2]) + (second / 60)
     return DDMAngle(degree, minute, positive=True) if hp >= 0 else DDMAngle(degree, minute, positive=False)
 
 
@@ -1256,7 +1261,9 @@ def dec2hp_v(dec):
 
 
 def hp2dec_v(hp):
-    degmin, second = divmod(abs(hp) * 1000, 10)
+    # round the scaled value so that a product falling just below a digit
+    # boundary (e.g. 259.02 * 1000 = 259019.99999999997) stays in its field
+    degmin, second = divmod((abs(hp) * 1000).round(9), 10)
     degree, minute = divmod(degmin, 100)
     dec = degree + (minute / 60) + (second / 360)
     dec[hp <= 0] = -dec[hp <= 0]
